@@ -3,8 +3,10 @@
 From Coq Require Import Bool List NArith ZArith Lia.
 From M Require IntFmtProofs.
 From M Require IntRoundTrip.
+From M Require IntRtSigned.
 From M Require FmtModel.
 From M Require IntFmtProofs.
+From M Require IntRoundTrip.
 Import ListNotations.
 
 Module T_int2str_exact. Import IntFmtProofs. Local Open Scope bool_scope. Local Open Scope Z_scope.
@@ -36,4 +38,23 @@ Theorem C14_rt_unsigned :
 Proof. exact (@IntRoundTrip.rt_unsigned). Qed.
 End T_rt_unsigned.
 Definition C14_rt_unsigned := @T_rt_unsigned.C14_rt_unsigned.
+
+Module T_rt_canonical. Import IntRtSigned. Local Open Scope bool_scope. Local Open Scope Z_scope.
+Import FmtModel IntFmtProofs IntRoundTrip. Local Open Scope Z_scope.
+Theorem C14_rt_canonical :
+  forall w val base sign rest,
+  (w = 32 \/ w = 64) -> stops (eff_base base) rest ->
+  read_int (eff_base base) (canonical w val base sign ++ rest) = value_of w val base sign.
+Proof. exact (@IntRtSigned.rt_canonical). Qed.
+End T_rt_canonical.
+Definition C14_rt_canonical := @T_rt_canonical.C14_rt_canonical.
+
+Module T_rt_min32. Import IntRtSigned. Local Open Scope bool_scope. Local Open Scope Z_scope.
+Import FmtModel IntFmtProofs IntRoundTrip. Local Open Scope Z_scope.
+Theorem C14_rt_min32 :
+  canonical 32 (-2147483648) 10 true = [45;50;49;52;55;52;56;51;54;52;56] /\ value_of 32 (-2147483648) 10 true = -2147483648 /\
+  value_of 32 (-2147483648) 16 true = 2147483648 /\ read_int 16 (canonical 32 (-2147483648) 16 true ++ [44]) = 2147483648.
+Proof. exact (@IntRtSigned.rt_min32). Qed.
+End T_rt_min32.
+Definition C14_rt_min32 := @T_rt_min32.C14_rt_min32.
 
